@@ -1216,9 +1216,9 @@ func lockRun(args []string) int {
 			fail(err)
 		}
 	} else {
-		nseq, nops, nhist := 14, 50, 36
+		nseq, nops, nhist := 30, 50, 90
 		if o.Tier == "thorough" {
-			nseq, nops, nhist = 120, 90, 400
+			nseq, nops, nhist = 300, 90, 1500
 		}
 		if o.Search {
 			nseq, nhist = nseq*2, nhist*2
